@@ -615,3 +615,4 @@ def finish(ctx):
             "style:close2", "players:1", "players:2", "players:3"]:
     ctx.need(k, 50)
   ctx.need("line-level-scenarios", 100)
+CASE_CPU_S = 0     # library code runs on several threads: no per-case signal
